@@ -56,10 +56,10 @@ func main() {
 		},
 	)
 	if err != nil {
-		if *strict {
-			log.Fatal(err)
-		}
-		fmt.Fprintln(os.Stderr, "warning:", err)
+		// Grammar warnings are printed by Compile and only returned as an
+		// error with -strict: whatever arrives here means that no complete
+		// parser was written.
+		log.Fatal(err)
 	}
 }
 
